@@ -146,6 +146,9 @@ def map_len(e, c, a):
         return len(m.items) == 0
     if meth == "clear":
         m.items.clear()
+    if meth == "reserve" and len(a) > 1 and isinstance(a[1], Int):
+        from .models import check_alloc
+        check_alloc(e, a[1], c)
     if meth == "capacity":
         return usize(len(m.items))
     return UNIT
